@@ -19,7 +19,7 @@ import (
 
 func init() {
 	register(&Rule{
-		ID: "K", Props: []string{"C17"}, Min: 2,
+		ID: "K", Props: []string{"C17", "C01"}, Min: 2,
 		Doc: `kseq wrapper: in next_fast_sek (C, via clang -ast-dump=json) the result of kseq_read may be reset to 0 ('finished') only under a condition that depends on the
 error number obtained from gzerror(), which must be called; in the Go caller every loop over C.next_fast_sek must treat a negative result as fatal (a test '< 0' with a
 diverging body after the loop, and a loop condition that stops on negative values).`,
@@ -240,6 +240,52 @@ func kCheckC(s *Sink, key string, fn *cnode) {
 	}
 	o := s.add(Pass, nil, key, 0, fmt.Sprintf("gzerror() consulted; %d reset(s) of the result to 'finished', each guarded by the zlib error number", n0))
 	o.Pos = pos
+	// a record with an empty sequence: kseq_read() returns its length, 0.  The branch that turns the
+	// result into the (positive) "record read" value must therefore be taken for l >= 0, not only l > 0.
+	keyE := key + ":empty-record"
+	found, okE := false, false
+	form := ""
+	fn.walk(func(n *cnode, _ []*cnode) {
+		if n.Kind != "IfStmt" || len(n.Inner) < 2 || found {
+			return
+		}
+		cond := stripCasts(n.Inner[0])
+		if cond.Kind != "BinaryOperator" || len(cond.Inner) != 2 {
+			return
+		}
+		a, b := stripCasts(cond.Inner[0]), stripCasts(cond.Inner[1])
+		op := cond.Op
+		if b.Kind == "DeclRefExpr" && a.Kind == "IntegerLiteral" {
+			a, b = b, a
+			op = map[string]string{"<": ">", ">": "<", "<=": ">=", ">=": "<="}[op]
+		}
+		if !(a.Kind == "DeclRefExpr" && a.Ref != nil && a.Ref.ID == lvar && b.Kind == "IntegerLiteral" && b.Value == "0") {
+			return
+		}
+		inThen := len(n.Inner[1].callsTo("gzoffset")) > 0
+		inElse := len(n.Inner) > 2 && len(n.Inner[2].callsTo("gzoffset")) > 0
+		if !inThen && !inElse {
+			return
+		}
+		found = true
+		form = "l " + op + " 0"
+		if inThen {
+			okE = op == ">="
+		} else {
+			okE = op == "<"
+		}
+	})
+	switch {
+	case !found:
+		o := s.add(Undecided, nil, keyE, 0, "cannot find the branch that converts the result of kseq_read() into the 'record read' value (gzoffset)")
+		o.Pos = pos
+	case !okE:
+		o := s.add(Violation, nil, keyE, 0, "the 'record read' value is produced only under '"+form+"': a record whose sequence is empty (kseq_read() returns its length, 0) is reported as the end of the input, so every following record of the stream is dropped silently and a stream cut right after a title line ends normally")
+		o.Pos = pos
+	default:
+		o := s.add(Pass, nil, keyE, 0, "a record with an empty sequence (result 0) is reported as a record, not as the end of the input")
+		o.Pos = pos
+	}
 }
 
 func kCheckGo(c *Ctx, s *Sink, p *packages.Package) {
